@@ -350,9 +350,11 @@ func c02Context() *core.Scenario {
 
 func init() {
 	register(&Property{
-		ID:        "C02",
-		Scenarios: func(tier string) []*core.Scenario { return []*core.Scenario{c02Scenario(tier), c02Context()} },
-		Pre:       x86refSelfCheck,
+		ID: "C02",
+		Scenarios: func(tier string) []*core.Scenario {
+			return []*core.Scenario{c02Scenario(tier), c02Context(), modeContextScenario("ea_in_mode_switching_file"), memLabelScenario("ea_label")}
+		},
+		Pre: x86refSelfCheck,
 		Assumptions: []string{
 			"effective addresses are compared as linear forms (register -> coefficient, displacement) modulo 2^(address size), so [ECX*1] == [ECX] and base/index may be swapped at scale 1; no particular byte string is demanded",
 			"a memory operand that cannot be encoded ([AX], [BX+BP], ESP as scaled index) is caught by the same oracle: no encodable address equals it, so anything emitted without an error fails the ea facet",
